@@ -64,6 +64,30 @@ def trie_accesses(cx, attr):
     return out
 
 
+def loop_as_comprehension(fn, lst):
+    """`lst = []; for T in I: <if-tree of lst.append(E)>; return lst` read back as the comprehension `[E' for T in I]` with E' a
+    conditional expression; None when the loop does more than append exactly one element per iteration"""
+    inits = [s for s in ast.walk(fn) if isinstance(s, ast.Assign) and len(s.targets) == 1 and ast.unparse(s.targets[0]) == lst]
+    loops = [s for s in ast.walk(fn) if isinstance(s, ast.For) and any(
+        isinstance(c, ast.Call) and callee_attr(c) == 'append' and ast.unparse(c.func.value) == lst for c in ast.walk(s))]
+    if len(inits) != 1 or not (isinstance(inits[0].value, ast.List) and not inits[0].value.elts) or len(loops) != 1:
+        return None
+
+    def elt(body):
+        if len(body) == 1 and isinstance(body[0], ast.Expr) and isinstance(body[0].value, ast.Call) and callee_attr(body[0].value) == 'append' \
+                and ast.unparse(body[0].value.func.value) == lst and len(body[0].value.args) == 1:
+            return body[0].value.args[0]
+        if len(body) == 1 and isinstance(body[0], ast.If) and body[0].orelse:
+            a, b = elt(body[0].body), elt(body[0].orelse)
+            if a is not None and b is not None:
+                return ast.IfExp(test=body[0].test, body=a, orelse=b)
+        return None
+    e = elt(loops[0].body)
+    if e is None or loops[0].orelse:
+        return None
+    return ast.ListComp(elt=e, generators=[ast.comprehension(target=loops[0].target, iter=loops[0].iter, ifs=[], is_async=0)])
+
+
 def run(R):
     P = R.P
     # ---------------------------------------------------------------- C04.PRV.1
@@ -176,6 +200,8 @@ def run(R):
         inst = 'ndn.name_tree.NameTrie._path_from_key :: ' + norm(rn.ast)[:80]
         if isinstance(e, ast.Call) and isinstance(e.func, ast.Name) and e.func.id in ('list', 'tuple') and e.args:
             e = e.args[0]
+        if isinstance(e, ast.Name):
+            e = loop_as_comprehension(cx.f.node, e.id) or e
         if isinstance(e, (ast.ListComp, ast.GeneratorExp)) and len(e.generators) == 1:
             g = e.generators[0]
             elt = e.elt
